@@ -401,6 +401,9 @@ class _StubModel:
     def load_var_values_from_x(self, x):
         self.loaded.append(x)
 
+    def set_structure(self):
+        pass
+
 
 class _Linalg:
     """scipy.sparse.linalg as the solver module sees it: the REAL routines run on the real matrix with a float right-hand side (so a
@@ -510,6 +513,74 @@ def check_solver(rep):
         undo()
 
 
+def check_helper(rep):
+    """the real _solver_helper on every outcome a scipy solver can report: converged only for fsolve's ier == 1 (or a solver that
+    returned without raising), and only then are the values loaded into the model"""
+    real_fsolve, real_nk = scipy.optimize.fsolve, scipy.optimize.newton_krylov
+    try:
+        def harness(c):
+            V = SymVars(c)
+            kind = V.choice('solver', ['fsolve', 'newton_krylov'])
+            m = _StubModel(V, -1)
+            if kind == 'fsolve':
+                ier = V.choice('ier', [1, 2, 3, 4, 5, 0])
+                scipy.optimize.fsolve = lambda f, x0, **kw: (np.array([7.0]), {}, ier, 'message %d' % ier)
+                out = core._solver_helper(m, scipy.optimize.fsolve, {'full_output': True})
+                want = ier == 1
+            else:
+                fails = V.choice('raises', [False, True])
+
+                def nk(f, x0, **kw):
+                    if fails:
+                        raise scipy.optimize.NoConvergence('stub')
+                    return np.array([7.0])
+                scipy.optimize.newton_krylov = nk
+                core_solvers = core.scipy.optimize      # _solver_helper looks the solver up in this set by identity
+                out = core._solver_helper(m, scipy.optimize.newton_krylov, {})
+                want = not fails
+            return kind, dict(c.choices), out, want, len(m.loaded)
+        n = 0
+        bad = False
+        for path in symx.explore(harness, max_paths=100, timeout_s=120, catch=(Exception,)):
+            n += 1
+            ch = dict(path.choices)
+            if path.exc is not None:
+                if isinstance(path.exc, ValueError) and 'Solver not recognized' in str(path.exc):
+                    rep.discharged('helper/path%d' % n, sample={'choices': ch, 'note': 'solver not in the recognised set on this scipy'})
+                    continue
+                rep.counterexample('helper/raised', dict(ch, why='_solver_helper raised %s: %s' % (type(path.exc).__name__, path.exc)), 'helper')
+                bad = True
+                continue
+            kind, ch, out, want, loads = path.value
+            ok = isinstance(out, tuple) and len(out) == 3 and (out[0] == SolverStatus.converged) == want and (loads > 0) == want
+            if not ok:
+                rep.counterexample('helper/status', dict(ch, why='%s outcome %r: _solver_helper returned %r and loaded the values %d time(s); a solve that gave up must be an error and must not be loaded' % (kind, ch, out, loads)), 'helper')
+                bad = True
+            else:
+                rep.discharged('helper/path%d' % n, sample={'choices': ch, 'status': int(out[0]), 'loaded': loads})
+        rep.extra['helper_paths'] = n
+    finally:
+        scipy.optimize.fsolve, scipy.optimize.newton_krylov = real_fsolve, real_nk
+
+
+def replay_helper(i):
+    """the real fsolve gives up on an inconsistent system: the real _solver_helper must say error"""
+    import wntr.sim.aml as aml
+    m = aml.Model()
+    m.x, m.y = aml.Var(0.5), aml.Var(0.25)
+    m.c1 = aml.Constraint(m.x + m.y - 1.0)
+    m.c2 = aml.Constraint(2.0 * m.x + 2.0 * m.y - 3.0)
+    with warnings.catch_warnings():
+        warnings.simplefilter('ignore')
+        try:
+            out = core._solver_helper(m, scipy.optimize.fsolve, {'full_output': True})      # what run_sim passes for fsolve
+        except BaseException as ex:
+            return '_solver_helper raised %s: %s' % (type(ex).__name__, ex)
+    if out[0] == SolverStatus.converged:
+        return 'fsolve gave up on an inconsistent system (residual %.3g) but _solver_helper reported it as solved' % max(abs(v) for v in m.evaluate_residuals())
+    return None
+
+
 def replay_solver(i):
     """the real NewtonSolver on a real (compiled) aml model whose Jacobian is singular / regular, through the real _solver_helper"""
     import wntr.sim.aml as aml
@@ -546,6 +617,7 @@ def run(rep, only=None):
               'MAXITER = 2, BT_MAXITER = 2, with / without backtracking, the Jacobian singular at iteration 0, 1 or never (real scipy call on the real matrix): every ending is a status triple, '
               'converged only below the tolerance. What the linear algebra does to the numbers, and finiteness of the results, are outside')
     rep.encode(NewtonSolver.solve)
+    rep.bound('_solver_helper: every status fsolve can report (ier 0..5) and a raising / returning newton_krylov, on a stub model: converged only for success, values loaded only then')
     rep.stub('scipy.sparse.linalg in wntr.sim.solvers: the real routine runs on the real matrix with a float right-hand side; time.time -> symbolic non-decreasing clock')
-    tasks = [('c16-' + cfg['name'], check_cfg, (cfg,)) for cfg in CFGS_QUICK] + [('solver', check_solver, ())]
+    tasks = [('c16-' + cfg['name'], check_cfg, (cfg,)) for cfg in CFGS_QUICK] + [('solver', check_solver, ()), ('helper', check_helper, ())]
     run_parallel(rep, tasks)
